@@ -76,8 +76,11 @@ class StructuredGrammaticalEvolutionRepresentation(
         self.gene_length = gene_length
 
     def create_genotype(self, random: RandomSource, **kwargs) -> Genotype:
-        nodes = [str(node) for node in self.grammar.all_nodes]
-        for node in self.grammar.all_nodes:
+        # all_nodes is a set: iterate it in a stable order, otherwise the same random stream is
+        # dealt to different keys in different processes
+        all_nodes = sorted(self.grammar.all_nodes, key=str)
+        nodes = [str(node) for node in all_nodes]
+        for node in all_nodes:
             arguments = get_arguments(node)
             for _, arg in arguments:
                 if is_generic(arg):
